@@ -145,9 +145,23 @@ def eval_simplify(case):
     return o
 
 
+def enum_small(tier):
+    for names, depth, text in gen.small_scopes(tier):
+        for i, p in enumerate(gen.small_values(names, depth, text)):
+            yield {'p': p}
+            if i % 7 == 0:
+                yield {'p': dict(p, cls='s')}
+
+
 SUBS = [
     Sub('roundtrip', eval_roundtrip, strategy=lambda: st.fixed_dictionaries({'p': gen.progs(CFG_RT)}), quick=500, thorough=8000),
     Sub('roundtrip_csi_text', eval_roundtrip, strategy=lambda: st.fixed_dictionaries({'p': gen.progs(CFG_CSI), 'csi': st.just(True)}), quick=300, thorough=5000,
         rule='base texts containing non-SGR control sequences (erase / cursor), which parsing keeps verbatim'),
+    Sub('small_exhaustive', eval_roundtrip, enumerate=enum_small,
+        rule='every value reachable from a plain text by <= 2 apply/remove steps over {red, blue, bold} on 3 characters and by <= 3 steps over {red, blue} on 2 (thorough: 3) characters: render -> parse round trip',
+        exhaustive_note='all values of the small scopes'),
+    Sub('simplify_small_exhaustive', eval_simplify, enumerate=enum_small,
+        rule='every value reachable from a plain text by <= 2 apply/remove steps over {red, blue, bold} on 3 characters and by <= 3 steps over {red, blue} on 2 (thorough: 3) characters: simplify()',
+        exhaustive_note='all values of the small scopes'),
     Sub('simplify', eval_simplify, strategy=lambda: st.fixed_dictionaries({'p': gen.progs(CFG_SIMP)}), quick=500, thorough=8000),
 ]
